@@ -1034,9 +1034,28 @@ def _rule_numeric_key_order(check, repo: Repo) -> None:
             if not isinstance(it, (ast.GeneratorExp, ast.ListComp, ast.SetComp)) or len(it.generators) != 1:
                 continue
             g = it.generators[0]
+            if isinstance(g.iter, ast.Name) and not g.ifs:
+                # the filter may live in its own comprehension: index_keys = [k for k in … if k.isdigit()]; max(int(k) for k in index_keys)
+                all_ = [d for d in definitions(fn, g.iter.id)]
+                ds_ = [d for d in all_ if isinstance(d, (ast.ListComp, ast.GeneratorExp, ast.SetComp)) and len(d.generators) == 1
+                       and isinstance(d.elt, ast.Name) and isinstance(d.generators[0].target, ast.Name) and d.elt.id == d.generators[0].target.id]
+                if ds_ and len(ds_) == len(all_) and len({unparse(d) for d in ds_}) == 1:
+                    g = ast.comprehension(target=g.target, iter=ds_[0].generators[0].iter, is_async=0,
+                                          ifs=[ast.parse(unparse(f_).replace(ds_[0].generators[0].target.id, g.target.id if isinstance(g.target, ast.Name) else "k"), mode="eval").body
+                                               for f_ in ds_[0].generators[0].ifs])
             digit_filtered = any(isinstance(x, ast.Call) and isinstance(x.func, ast.Attribute) and x.func.attr in ("isdigit", "isdecimal", "isnumeric") for f_ in g.ifs for x in ast.walk(f_))
-            over_keys = any(isinstance(x, ast.Call) and isinstance(x.func, ast.Attribute) and x.func.attr in ("array_keys", "group_keys", "keys") for x in ast.walk(g.iter)) \
-                or any(isinstance(x, ast.Attribute) and x.attr == "attrs" for x in ast.walk(g.iter))
+            def _keyish(e_, depth=0):
+                if any(isinstance(x, ast.Call) and isinstance(x.func, ast.Attribute) and x.func.attr in ("array_keys", "group_keys", "keys") for x in ast.walk(e_)) \
+                        or any(isinstance(x, ast.Attribute) and x.attr == "attrs" for x in ast.walk(e_)):
+                    return True
+                if depth < 2:
+                    for x in ast.walk(e_):
+                        if isinstance(x, ast.Name):
+                            for d_ in definitions(fn, x.id):
+                                if isinstance(d_, ast.AST) and _keyish(d_, depth + 1):
+                                    return True
+                return False
+            over_keys = _keyish(g.iter)
             if not (digit_filtered and over_keys and isinstance(g.target, ast.Name)):
                 continue
             n += 1
